@@ -27,6 +27,7 @@ type Dep struct {
 	Extra   []string // further plain named types (std)
 	GenAlias string  // generic alias over an unnamed type: type List[E any] = []E
 	Transient *Dep   // Embed mentions types of this package
+	Transients []*Dep // further packages the Embed interface mentions inside one func type (same-named ones preferred)
 
 	SrcAlias string // alias the source files use: "" none, "." dot
 }
@@ -63,6 +64,8 @@ type Profile struct {
 	Generic    float64 // probability that an interface is generic
 	MaxDepth   int
 	Runtime    bool // restrict to shapes the runtime driver can drive (exported methods, exported local types)
+	SrcName    string // force the source package name ("" = random)
+	Cluster    bool   // three same-named packages reached only through one func type of a hub package's interface
 	Regen      bool // regeneration corpus: while KF-regeneration-alias-feedback is open, no parameter name (user-written
 	// or type-derived) may equal the name of a dependency package (such a parameter is renamed in the first run
 	// only when the package is re-aliased later, and the alias is then read back from the generated file)
@@ -74,6 +77,7 @@ var (
 	ProfNaming  = Profile{Name: "naming", NDeps: 4, NIfaces: 12, SameNames: 0.4, Aliases: 0.3, Collide: 0.9, Generic: 0.1, MaxDepth: 2}
 	ProfGeneric = Profile{Name: "generic", NDeps: 4, NIfaces: 10, SameNames: 0.3, Aliases: 0.2, Collide: 0.3, Generic: 0.9, MaxDepth: 2}
 	ProfRegen   = Profile{Name: "regen", NDeps: 8, NIfaces: 10, SameNames: 0.6, Aliases: 0.35, Collide: 0.4, Generic: 0.15, MaxDepth: 2, Regen: true}
+	ProfCluster = Profile{Name: "cluster", NDeps: 3, NIfaces: 6, SameNames: 0.2, Aliases: 0.2, Collide: 0.3, Generic: 0.1, MaxDepth: 2, Cluster: true}
 	ProfRuntime = Profile{Name: "runtime", NDeps: 4, NIfaces: 10, SameNames: 0.3, Aliases: 0.2, Collide: 0.3, Generic: 0.25, MaxDepth: 2, Runtime: true}
 )
 
@@ -90,6 +94,7 @@ type Tree struct {
 	SrcName  string
 	SrcPath  string
 	Deps     []*Dep // local dependencies
+	Hidden   []*Dep // packages the source never imports itself (reached transiently only)
 	Std      []*Dep // std packages made available
 	Ifaces   []*Iface
 	Locals   Locals
@@ -246,6 +251,9 @@ func NewTree(seed int64, prof Profile, hz Hazards) *Tree {
 	}
 	t.Files["go.mod"] = "module " + t.ModPath + "\n\ngo 1.24\n"
 	t.SrcName = srcNamePool[b.rng.Intn(len(srcNamePool))]
+	if prof.SrcName != "" {
+		t.SrcName = prof.SrcName
+	}
 	switch b.rng.Intn(4) {
 	case 0:
 		t.SrcDir = t.SrcName
@@ -275,6 +283,25 @@ func (b *builder) makeDeps() {
 	usedDirs := map[string]bool{t.SrcDir: true}
 	sanitised := map[string]bool{}
 	var names []string
+	if b.prof.Cluster {
+		// a/one, b/one, c/b/one: same name, never imported by the source package itself
+		var cluster []*Dep
+		for _, dir := range []string{"a/one", "b/one", "c/b/one"} {
+			uid := b.nextUID()
+			usedDirs[dir] = true
+			sanitised[sanitisePath(t.ModPath+"/"+dir)] = true
+			cluster = append(cluster, &Dep{Path: t.ModPath + "/" + dir, Dir: dir, Name: "one", UID: uid, Struct: "Item", Ifaces: []string{"Iface"},
+				Embed: "Emb" + uid, EmbedMethods: []string{"Em" + uid}, Func: "Func", Gen: "Gen", Num: "Num", Constr: "Constr", StrIf: "Str", GenAlias: "List"})
+		}
+		t.Hidden = cluster
+		uid := b.nextUID()
+		usedDirs["hub"] = true
+		hub := &Dep{Path: t.ModPath + "/hub", Dir: "hub", Name: "hub", UID: uid, Struct: "Hub", Ifaces: []string{"Iface"},
+			Embed: "Emb" + uid, EmbedMethods: []string{"Em" + uid}, Func: "Func", Gen: "Gen", Num: "Num", Constr: "Constr", StrIf: "Str", GenAlias: "List",
+			Transient: cluster[0], Transients: cluster}
+		t.Deps = append(t.Deps, hub)
+		names = append(names, "hub")
+	}
 	for i := 0; i < b.prof.NDeps; i++ {
 		var name string
 		switch {
@@ -288,7 +315,7 @@ func (b *builder) makeDeps() {
 		default:
 			name = b.pick(depNamePool)
 			if b.prof.Regen && !b.hz.RegenAliasFeedback {
-				name = b.pick([]string{"one", "two", "util", "api", "foo", "bar"}) // not the de-capitalised form of any type name
+				name = b.pick([]string{"one", "two", "util", "api", "foo", "bar", "sync", "sync", "json"}) // not the de-capitalised form of any type name
 			}
 		}
 		var dir string
@@ -316,6 +343,23 @@ func (b *builder) makeDeps() {
 		}
 		if len(t.Deps) > 0 && b.chance(0.35) {
 			d.Transient = t.Deps[b.rng.Intn(len(t.Deps))]
+			// a single func type over several packages that share a name, none of them imported by the source
+			byName := map[string][]*Dep{}
+			for _, o := range t.Deps {
+				byName[o.Name] = append(byName[o.Name], o)
+			}
+			var best []*Dep
+			for _, o := range t.Deps { // deterministic order
+				if g := byName[o.Name]; len(g) > len(best) {
+					best = g
+				}
+			}
+			if len(best) >= 2 && b.chance(0.6) {
+				if len(best) > 3 {
+					best = best[:3]
+				}
+				d.Transients = best
+			}
 		}
 		if b.chance(b.prof.Aliases) {
 			d.SrcAlias = b.pick([]string{name + "x", "my" + name, "p" + uid, name + "2", "s", "err", "ctx", "n", "v1"})
@@ -409,7 +453,11 @@ func (b *builder) depSource(d *Dep) string {
 	var s strings.Builder
 	fmt.Fprintf(&s, "package %s\n\n", d.Name)
 	if d.Transient != nil {
-		fmt.Fprintf(&s, "import tr %q\n\n", d.Transient.Path)
+		fmt.Fprintf(&s, "import (\n\ttr %q\n", d.Transient.Path)
+		for i, o := range d.Transients {
+			fmt.Fprintf(&s, "\ttr%d %q\n", i, o.Path)
+		}
+		s.WriteString(")\n\n")
 	}
 	fmt.Fprintf(&s, "type %s struct{ V int }\n\n", d.Struct)
 	fmt.Fprintf(&s, "type %s interface{ M%s() string }\n\n", d.Ifaces[0], d.UID)
@@ -422,7 +470,15 @@ func (b *builder) depSource(d *Dep) string {
 	fmt.Fprintf(&s, "type %s interface{ ~int | ~string }\n\n", d.Constr)
 	fmt.Fprintf(&s, "type %s interface{ String() string }\n\n", d.StrIf)
 	if d.Transient != nil {
-		fmt.Fprintf(&s, "type %s interface{ %s(x tr.%s, y *%s) (tr.%s, error) }\n", d.Embed, d.EmbedMethods[0], d.Transient.Struct, d.Struct, d.Transient.Num)
+		extra := ""
+		if len(d.Transients) >= 2 {
+			var ps []string
+			for i, o := range d.Transients[1:] {
+				ps = append(ps, fmt.Sprintf("tr%d.%s", i+1, o.Struct))
+			}
+			extra = fmt.Sprintf(", f func(%s) (tr0.%s, error)", strings.Join(ps, ", "), d.Transients[0].Struct)
+		}
+		fmt.Fprintf(&s, "type %s interface{ %s(x tr.%s, y *%s%s) (tr.%s, error) }\n", d.Embed, d.EmbedMethods[0], d.Transient.Struct, d.Struct, extra, d.Transient.Num)
 	} else {
 		fmt.Fprintf(&s, "type %s interface{ %s(x %s) (*%s, error) }\n", d.Embed, d.EmbedMethods[0], d.Struct, d.Struct)
 	}
@@ -432,7 +488,7 @@ func (b *builder) depSource(d *Dep) string {
 // render writes all files of the tree.
 func (b *builder) render() {
 	t := b.t
-	for _, d := range t.Deps {
+	for _, d := range append(append([]*Dep{}, t.Deps...), t.Hidden...) {
 		t.Files[d.Dir+"/"+"pkg.go"] = b.depSource(d)
 	}
 	l := t.Locals
